@@ -80,6 +80,12 @@ def build_network(N, topologies, placement, relabel=None):
     el.motif_id = [m for _, _, m in rows]
     el.joint_degrees = list(jds)
     net = EdgeListToNetwork.convert(el)
+    if relabel == "string-labels":
+        import networkx as nx
+        from gcmpy.network.network import Network
+        net2 = Network()
+        net2.G = nx.relabel_nodes(net.G, {v: f"v{v}" for v in net.G.nodes()})
+        return net2, jds, rows
     if relabel == "reversed-insertion":
         # the same annotated network with vertices and edges inserted in the opposite order and every edge given
         # in the opposite orientation (a different, equally valid, networkx representation)
